@@ -4,6 +4,8 @@
 pub mod command_line;
 pub mod file_formatter;
 pub mod formatting_orchestrator;
+#[cfg(feature = "verif")]
+mod verif;
 
 pub trait ErrHandler: Fn(anyhow::Error) + Sync {}
 impl<T: Fn(anyhow::Error) + Sync> ErrHandler for T {}
